@@ -7,6 +7,7 @@ import (
 	"io"
 	"net"
 	"os"
+	"path/filepath"
 	"runtime/debug"
 	"sync"
 
@@ -57,7 +58,9 @@ func Run4(ifi net.Interface, hs []handler.Handler4, dgram []byte, oobIf int, pee
 			out.Panic = fmt.Sprintf("%v\n%s", e, trimStack(debug.Stack()))
 		}
 	}()
-	buf := append(make([]byte, 0, len(dgram)+1), dgram...)
+	// HandleMsgN returns its buffer to the server's pool, from which Serve takes buffers and
+	// reslices them to MaxDatagram: hand it a buffer of that capacity, as Serve would.
+	buf := append(make([]byte, 0, server.MaxDatagram), dgram...)
 	if peer == nil {
 		peer = &net.UDPAddr{IP: net.IPv4zero, Port: 68}
 	}
@@ -78,7 +81,9 @@ func Run6(ifi net.Interface, hs []handler.Handler6, dgram []byte, oobIf int, pee
 			out.Panic = fmt.Sprintf("%v\n%s", e, trimStack(debug.Stack()))
 		}
 	}()
-	buf := append(make([]byte, 0, len(dgram)+1), dgram...)
+	// HandleMsgN returns its buffer to the server's pool, from which Serve takes buffers and
+	// reslices them to MaxDatagram: hand it a buffer of that capacity, as Serve would.
+	buf := append(make([]byte, 0, server.MaxDatagram), dgram...)
 	l.HandleMsg6(buf, oob, peer)
 	return
 }
@@ -90,22 +95,36 @@ func trimStack(b []byte) string {
 	return string(b)
 }
 
-// Scratch returns a private scratch directory (tmpfs when available).
+// Scratch returns a scratch directory private to this process (tmpfs when available).
+// Worker processes inherit VERIF_SCRATCH from the driver, so each one works in its own
+// pid-named subdirectory: lease databases and lease files must never be shared.
 func Scratch() string {
-	if d := os.Getenv("VERIF_SCRATCH"); d != "" {
-		return d
-	}
-	base := "/dev/shm"
-	if st, err := os.Stat(base); err != nil || !st.IsDir() {
-		base = os.TempDir()
-	}
-	d, err := os.MkdirTemp(base, "verif-")
-	if err != nil {
-		panic(err)
-	}
-	os.Setenv("VERIF_SCRATCH", d)
-	return d
+	scratchOnce.Do(func() {
+		base := os.Getenv("VERIF_SCRATCH")
+		if base == "" {
+			base = "/dev/shm"
+			if st, err := os.Stat(base); err != nil || !st.IsDir() {
+				base = os.TempDir()
+			}
+			d, err := os.MkdirTemp(base, "verif-")
+			if err != nil {
+				panic(err)
+			}
+			base = d
+			os.Setenv("VERIF_SCRATCH", d)
+		}
+		scratchDir = filepath.Join(base, fmt.Sprintf("p%d", os.Getpid()))
+		if err := os.MkdirAll(scratchDir, 0o755); err != nil {
+			panic(err)
+		}
+	})
+	return scratchDir
 }
+
+var (
+	scratchOnce sync.Once
+	scratchDir  string
+)
 
 // Ifaces lists the host interfaces once.
 func Ifaces() []net.Interface {
